@@ -47,7 +47,7 @@ func registerC20() {
 		Level: "exploration",
 		Rule: "the constant table is generated at check time from the types.go of the tree under test (go/parser; constants of the generated types declared in other files of the package are included) and compiled into the checker; a case is one (type, value): " +
 			"every constant of every generated type, every remaining value of 8- and 16-bit types, and for 32-bit types all neighbours of constants, every single-bit and two-bit value, every OR / sum / difference of two named values, plus 200000 PRNG values; " +
-			"before any sequential use in the worker process, 8 goroutines make the process's first String() calls of each type at the same moment; non-trivial: String() was called and compared (named value: one of the names without the type prefix; other value: Type(n)); the value checks are repeated in a binary built with GOARCH=386 (32-bit int) when the host can run it; plus regeneration of types_string.go with the repository's own stringer (verif-tagged fitgen; six runs with GOMAXPROCS default, 1, 3, 6, 7, 12, and one with a fitgen built for GOARCH=386) compared byte for byte; plus a value-major pass: about 500 numbers each printed through every generated type in rotation (sequentially and from four goroutines), so that what one type printed for a number cannot leak into the next type's answer",
+			"before any sequential use in the worker process, 8 goroutines make the process's first String() calls of each type at the same moment; non-trivial: String() was called and compared (named value: one of the names without the type prefix; other value: Type(n)); the value checks are repeated in a binary built with GOARCH=386 (32-bit int) when the host can run it; plus regeneration of types_string.go with the repository's own stringer (verif-tagged fitgen; six runs with GOMAXPROCS default, 1, 3, 6, 7, 12, and one with a fitgen built for GOARCH=386) compared byte for byte; plus complete fitgen runs on two bundled workbooks whose types_string.go must equal what the stringer step alone writes for that run's types.go; plus a value-major pass: about 500 numbers each printed through every generated type in rotation (sequentially and from four goroutines), so that what one type printed for a number cannot leak into the next type's answer",
 		Assume:        []string{"Bool (hand-written in types_man.go, prints prefixed names by design) is reported separately and not judged by the generated-type rule"},
 		MinNontrivial: 100000,
 		WorkerProcs:   4,
@@ -330,6 +330,60 @@ func c20Tables(c *lib.Ctx) {
 	}
 	c.NontrivialN(1)
 	c.Count("string_table_bytes_compared", int64(len(gen)))
+	// The stringer as the fitgen command itself drives it: a complete run of the command on a
+	// bundled workbook writes types.go and types_string.go; the stringer step alone (the hook),
+	// run on that same types.go, must write the same bytes. What the command does around the
+	// stringer (logging, flags, the order of its steps) is not part of the tables.
+	for _, ver := range []string{"21.40", "20.43"} {
+		xlsx := filepath.Join(repo, "cmd/fitgen/internal/profile/testdata", ver+".xlsx")
+		if _, err := os.Stat(xlsx); err != nil {
+			continue
+		}
+		out := filepath.Join(wd, "full-"+ver)
+		os.RemoveAll(out)
+		os.MkdirAll(out, 0o755)
+		full := exec.Command(bin, "-sdk", ver, xlsx, out)
+		full.Dir = wd
+		if b, err := full.CombinedOutput(); err != nil {
+			c.Violation(nil, "a complete fitgen run on the bundled %s workbook failed: %v: %s", ver, err, tail(b, 400))
+			return
+		}
+		fullStr, err := os.ReadFile(filepath.Join(out, "types_string.go"))
+		if err != nil {
+			c.Violation(nil, "a complete fitgen run on the %s workbook wrote no types_string.go", ver)
+			return
+		}
+		hm := regexp.MustCompile(`(?m)^// fit types: \[([^\]]*)\]`).FindSubmatch(fullStr)
+		if hm == nil {
+			c.Violation(nil, "types_string.go of a complete fitgen run (%s) has no '// fit types:' header", ver)
+			return
+		}
+		alone := filepath.Join(out, "stringer-alone.go.txt")
+		hook := exec.Command(bin)
+		hook.Dir = out
+		hook.Env = append(os.Environ(), "FITGEN_VERIF_STRINGER="+filepath.Join(out, "types.go")+"|"+alone+"|"+strings.Join(strings.Fields(string(hm[1])), ","))
+		if b, err := hook.CombinedOutput(); err != nil {
+			c.Violation(nil, "the repository's stringer failed on the types.go of a complete fitgen run (%s): %v: %s", ver, err, tail(b, 400))
+			return
+		}
+		aloneStr, _ := os.ReadFile(alone)
+		c.Eval()
+		if !bytes.Equal(aloneStr, fullStr) {
+			line := 1
+			for i := 0; i < len(aloneStr) && i < len(fullStr); i++ {
+				if aloneStr[i] != fullStr[i] {
+					break
+				}
+				if aloneStr[i] == '\n' {
+					line++
+				}
+			}
+			c.Violation(nil, "workbook %s: the types_string.go a complete fitgen run writes differs from what the repository's stringer generates from that run's types.go (first difference at line %d; %d vs %d bytes)", ver, line, len(fullStr), len(aloneStr))
+			return
+		}
+		c.Count("complete_fitgen_runs_whose_string_tables_equal_the_stringer_alone", 1)
+		os.RemoveAll(out)
+	}
 }
 
 func tail(b []byte, n int) string {
